@@ -64,6 +64,8 @@ type session struct {
 	ended    []bool
 	raw      [][]byte // the last token's data as handed out (aliases the decoder's buffer)
 	rawCopy  [][]byte
+	rawInfo  [][]byte // likewise its Info
+	infoCopy [][]byte
 	calls    int
 	bad      []string // split results / windows that break the contract
 	clobber  []string // token bytes that changed before the decoder's own next call
@@ -73,14 +75,18 @@ type session struct {
 func newSession(decs []sessDec) *session {
 	n := len(decs)
 	return &session{decs: decs, d: make([]*styling.Decoder, n), cr: make([]*chunkReader, n), pos: make([]int, n),
-		evs: make([][]event, n), nextOnly: make([]bool, n), ended: make([]bool, n), raw: make([][]byte, n), rawCopy: make([][]byte, n)}
+		evs: make([][]event, n), nextOnly: make([]bool, n), ended: make([]bool, n), raw: make([][]byte, n), rawCopy: make([][]byte, n), rawInfo: make([][]byte, n), infoCopy: make([][]byte, n)}
 }
 
 func (s *session) checkRaw(k int, when string) {
 	if s.raw[k] != nil && !bytes.Equal(s.raw[k], s.rawCopy[k]) && len(s.clobber) < 4 {
 		s.clobber = append(s.clobber, fmt.Sprintf("decoder %d: the data of its last token was %q when handed out and is %q %s (no call on this decoder in between)", k, s.rawCopy[k], s.raw[k], when))
 	}
+	if s.rawInfo[k] != nil && !bytes.Equal(s.rawInfo[k], s.infoCopy[k]) && len(s.clobber) < 4 {
+		s.clobber = append(s.clobber, fmt.Sprintf("decoder %d: the info string of its last token was %q when handed out and is %q %s (no call on this decoder in between)", k, s.infoCopy[k], s.rawInfo[k], when))
+	}
 	s.raw[k] = nil
+	s.rawInfo[k] = nil
 }
 
 // do executes one operation; it reports whether the decoder may have more to give.
@@ -130,6 +136,8 @@ func (s *session) do(k int, op byte) bool {
 			s.raw[k] = t.Data
 			cp := t.Copy()
 			s.rawCopy[k] = cp.Data
+			s.rawInfo[k] = t.Info
+			s.infoCopy[k] = cp.Info
 			e := event{data: cp.Data, style: d.Style(), quote: d.Quote(), info: cp.Info}
 			s.evs[k] = append(s.evs[k], e)
 			o = e.String()
